@@ -21,25 +21,28 @@ from .. import model
 from ..sexp import Sym, json_sx, sx_json
 
 SCHEMA = """
+scalar Upload
 type Query { thing(id: ID!): Thing  things: [Thing!]! }
+type Mutation { up(file: Upload!): Thing }
 type Thing { id: ID!  name: String  size: Int }
 """
 QUERIES = """
 query GetThing($id: ID!) { thing(id: $id) { id name size } }
 query ListThings { things { id name } }
+mutation UploadThing($file: Upload!) { up(file: $file) { id size } }
 """
 
 E1 = {"message": "boom", "path": ["thing"]}
 BODIES = [
-    ("valid", {"data": {"thing": {"id": "1", "name": "n", "size": 3}, "things": [{"id": "1", "name": None}]}}),
-    ("valid-null", {"data": {"thing": None, "things": []}}),
-    ("valid+extensions", {"data": {"thing": None, "things": []}, "extensions": {"t": 1}}),
-    ("valid+errors-empty", {"data": {"thing": None, "things": []}, "errors": []}),
+    ("valid", {"data": {"thing": {"id": "1", "name": "n", "size": 3}, "things": [{"id": "1", "name": None}], "up": {"id": "9", "size": 1}}}),
+    ("valid-null", {"data": {"thing": None, "things": [], "up": None}}),
+    ("valid+extensions", {"data": {"thing": None, "things": [], "up": None}, "extensions": {"t": 1}}),
+    ("valid+errors-empty", {"data": {"thing": None, "things": [], "up": None}, "errors": []}),
     ("wrong-type", {"data": {"thing": {"id": "1", "name": 5, "size": "x"}, "things": "no"}}),
     ("missing-field", {"data": {}}),
     ("data-null", {"data": None}),
     ("errors-empty-only", {"errors": []}),
-    ("errors+data", {"data": {"thing": None, "things": []}, "errors": [E1]}),
+    ("errors+data", {"data": {"thing": None, "things": [], "up": None}, "errors": [E1]}),
     ("errors-only", {"errors": [E1, {"message": "two"}]}),
     ("neither", {"extensions": {}}),
     ("array", [1]), ("empty-array", []), ("json-string", "ok"), ("json-number", 42),
@@ -72,7 +75,12 @@ def classify(fn_result=None, exc=None):
     if t.__name__ == "GraphQLClientGraphQLMultiError":
         d["messages"] = [e.message for e in exc.errors]; d["data"] = exc.data
     return d
-METHODS = [("get_thing", {"id": "1"}, "GetThing"), ("list_things", {}, "ListThings")]
+import io
+# the third method sends an Upload: its request goes down the multipart path of execute
+METHODS = [("get_thing", {"id": "1"}, "GetThing"), ("list_things", {}, "ListThings"), ("upload_thing", {"file": "__UPLOAD__"}, "UploadThing")]
+def kwargs_of(kw):
+    return {k: (pkg.Upload(filename="f.txt", content=io.BytesIO(b"data"), content_type="text/plain") if v == "__UPLOAD__" else v)
+            for k, v in kw.items()}
 def expect_validate(resname, data):
     cls = getattr(pkg, resname)
     try:
@@ -86,7 +94,7 @@ if is_async:
             cur["st"], cur["raw"] = st, raw
             for m, kw, res in METHODS:
                 try:
-                    r = await getattr(client, m)(**kw); out.append(classify(r))
+                    r = await getattr(client, m)(**kwargs_of(kw)); out.append(classify(r))
                 except Exception as e:
                     out.append(classify(exc=e))
     asyncio.run(go())
@@ -96,7 +104,7 @@ else:
         cur["st"], cur["raw"] = st, raw
         for m, kw, res in METHODS:
             try:
-                out.append(classify(getattr(client, m)(**kw)))
+                out.append(classify(getattr(client, m)(**kwargs_of(kw))))
             except Exception as e:
                 out.append(classify(exc=e))
 # validation oracle for every data value the caller asks about
@@ -127,7 +135,7 @@ def run(ctx):
         ask = {}
         for i, r in enumerate(mres):
             if r[0][0] == "data":
-                for res in ("GetThing", "ListThings"):
+                for res in ("GetThing", "ListThings", "UploadThing"):
                     ask[f"{i}:{res}"] = (res, sx_json(r[0][1]))
         with open(os.path.join(tmp, "ask.json"), "w") as f:
             json.dump(ask, f)
@@ -158,7 +166,7 @@ def run(ctx):
                     k = 0
                     for i, ((st, raw), r) in enumerate(zip(cases, mres)):
                         kind = r[0][0]
-                        for resname in ("GetThing", "ListThings"):
+                        for resname in ("GetThing", "ListThings", "UploadThing"):
                             o = out[k]
                             k += 1
                             run.count()
@@ -186,7 +194,7 @@ def run(ctx):
                                         {"package": name, "tracer": tracer, "status": st, "body": raw, "operation": resname, "expected": exp, "observed": o})
                             if kind == "data" and exp["kind"] == "return":
                                 run.nontrivial_case(("method", st, raw, resname))
-        run.extra["method_cases_per_package"] = len(cases) * 2
+        run.extra["method_cases_per_package"] = len(cases) * 3
         run.extra["method_disagreements"] = bad
         run.sample({"generated_method": "c12pkg_sp.Client.get_thing", "status": 200, "body": cases[0][1],
                     "observed": "returned GetThing validated from exactly the data member"})
